@@ -79,6 +79,17 @@ impl TransitionRule {
 }
 
 /// Alternate local time type
+impl TransitionRule {
+    /// Checks that the rule only refers to days which exist
+    pub(super) fn validate(&self) -> Result<(), TimeZoneError> {
+        if let TransitionRule::Alternate(altt) = self {
+            altt.std_end.validate()?;
+            altt.dst_end.validate()?;
+        }
+        Ok(())
+    }
+}
+
 #[derive(Debug, PartialEq)]
 pub(super) struct AlternateLocalTimeType {
     pub(super) std: LocalTimeType,
@@ -249,7 +260,7 @@ fn parse_tz_string_rule(
             RuleDay::JulianDayWithoutLeap(day)
         }
         byte if byte.is_ascii_digit() => {
-            let day = parse_int(cursor.read_while(|c: &u8| c.is_ascii_digit())).expect(BUG_MSG);
+            let day = parse_int(cursor.read_while(|c: &u8| c.is_ascii_digit()))?;
             RuleDay::JulianDayWithLeap(day)
         }
         b'M' => {
@@ -291,4 +302,21 @@ pub(super) enum RuleDay {
     /// Week 5 means the last week of the month
     /// Day zero is Sunday
     MonthWeekDay(u8, u8, u8),
+}
+
+impl RuleDay {
+    fn validate(&self) -> Result<(), TimeZoneError> {
+        let valid = match self {
+            RuleDay::JulianDayWithoutLeap(day) => *day >= 1 && *day <= 365,
+            RuleDay::JulianDayWithLeap(day) => *day <= 365,
+            RuleDay::MonthWeekDay(month, week, day) => {
+                *month >= 1 && *month <= 12 && *week >= 1 && *week <= 5 && *day <= 6
+            }
+        };
+        if valid {
+            Ok(())
+        } else {
+            Err(TimeZoneError::InvalidTzFile("Invalid day in footer rule"))
+        }
+    }
 }
